@@ -19,8 +19,41 @@ META = {
                  "linear solvers as section hypotheses; expressions/constants/sign patterns regenerated from the source by "
                  "a fail-closed translator on every run + kernel-checked correspondence batches (binary64, tolerance) + "
                  "independent numpy oracle incl. a renumbering metamorphic test",
-    "level_text": "PLACEHOLDER",
-    "level_note": "PLACEHOLDER",
+    "level_text": "Machine-checked, unbounded Coq theorems (axiom-free, over any field with three named facts about sqrt and "
+                  "the thresholds; Examples.v shows R satisfies them) about an executable model of faces2d/vertex2d/base.py, "
+                  "connection.py and laplacian_op.py whose expressions, exponents, thresholds and sign/conjugation patterns are "
+                  "regenerated from the source on every run. FULL: the connection Laplacians on faces and on vertices are "
+                  "Hermitian for every element list, weights and transport; with a flat connection they are the scalar "
+                  "Laplacian; a face with exactly one feature edge is constrained to 1 = X^order (branch 0 = the unit vector "
+                  "along the edge) for every order and keeps it through optimize; every constrained element (faces or "
+                  "vertices) is left at its (normalised) constraint for any solver / smoothing answers; normalisation gives "
+                  "modulus 1 to every element above the 1e-10 guard; the bordered pipeline with n_smooth = 0 returns the "
+                  "element-wise normalisation of the field that extends the constraints and is harmonic at the free elements, "
+                  "for EVERY solver answer satisfying L_II z = -L_IB z_B; the vertex angles of flag_singularities telescope to "
+                  "the sum of the defects for any edge rotations, so the stored indices (+ the explicit sub-threshold residue) "
+                  "sum to (sum of defects)*2/pi = 4 chi under Gauss-Bonnet. PARTIAL: index quantum (e^{i order angle} = 1 under "
+                  "the named matching / closed-fan / holonomy hypotheses); gauge covariance is proved for the operator assembly "
+                  "(L' = G L G*, harmonic extensions correspond, edge reversal and renumbering invariance), the end-to-end "
+                  "numbering independence is a metamorphic TEST. REFUTED (known findings, witnesses replayed each run): unit "
+                  "modulus without the guard (solution exactly 0 on symmetric inputs; cancelling vertex constraints); "
+                  "'z = u^order' on faces with two feature edges for order != 4 (hard-coded **4, DESIGN #35); numbering "
+                  "dependence of the constraint on faces with two feature edges and on vertices with conflicting feature "
+                  "edges. The model is tied to the code by the translator and by kernel-evaluated correspondence batches "
+                  "(bases, transports as (cos,sin), operator entries, constraint vector, partition, the system handed to "
+                  "spsolve and the residual of its answer, final field, indices) on generated surfaces.",
+    "level_note": "Trusted: Coq kernel + vm_compute; the translator vf/translate/c18.py; the correspondence harness (mesh "
+                  "generators, driver canonicalisation of scipy matrices, wrapping of scipy.sparse.linalg.spsolve to record "
+                  "the first system and answer, tolerance 1e-9 relative to 1+|re|+|im| on binary64, 1e-7 for the solver "
+                  "residual, math.cos/sin to relate stored angles to unit complex numbers). NOT modelled (universally "
+                  "quantified in the theorems, residual checked per run): scipy spsolve/factorized/eigsh, the inverse power "
+                  "iteration (closed surfaces: only unit modulus, Hermitian operator and index sum/quantum are checked), the "
+                  "smoothing solves (any function). Inputs of the model taken from the implementation: mesh.edges, the "
+                  "iteration order of feat.feature_edges, cotan_edge_diagonal / cotangent weights (C08), angle defects (C07), "
+                  "the edge rotations of flag_singularities (their matching rule is checked by the oracle only), and for the "
+                  "vertex-based field the vertex bases and transport angles of SurfaceConnectionVertices (they rescale corner "
+                  "angles, not a field operation). Gauss-Bonnet (sum of defects = 2 pi chi) is a named hypothesis (C07). "
+                  "Floating-point round-off is outside the theorems (they are over fields); cad_correction / TrivialConnection "
+                  "(OSQP) are outside the property's quantifier and not run.",
 }
 
 HEADER = """From Coq Require Import ZArith List Bool.
@@ -128,6 +161,29 @@ def make_case(rng, tier):
     return c
 
 
+def sweep_cases():
+    """thorough tier: every order x element x features x smoothing x weights on a fixed list of base surfaces (support only)"""
+    import random
+    rng = random.Random(18)
+    bases = []
+    for nm, (V, F), planar in [("fan3", G.disk_fan(rng, 3), False), ("fan5", G.disk_fan(rng, 5), False),
+                               ("eqtri2", G.eqtri_n(rng, 2), True), ("eqtri3", G.eqtri_n(rng, 3), True),
+                               ("grid2x2", G.grid(rng, 2, 2, True), True), ("grid3x2", G.grid(rng, 3, 2, False, jitter=0.1), False),
+                               ("openbox", G.open_box(rng), False), ("tet", G.polyhedron(rng, "tet"), False),
+                               ("octa", G.polyhedron(rng, "octa"), False), ("torus4x3", G.torus(rng, 4, 3), False)]:
+        bases.append((nm, [list(map(float, p)) for p in V], [list(f) for f in F], planar))
+    out = []
+    for nm, V, F, planar in bases:
+        for order in range(1, 7):
+            for elem in ("faces", "vertices"):
+                for feats in (False, True):
+                    for ns in (0, 2):
+                        out.append({"elem": elem, "order": order, "features": feats, "n_smooth": ns, "cotan": (order + ns) % 3 != 0,
+                                    "smooth_normals": order % 2 == 0 or feats, "V": V, "F": F, "planar": planar, "kind": nm,
+                                    "seed": 7 * order + ns})
+    return out
+
+
 def witness_cases():
     """the recorded witnesses of the known findings (corpus/C18/witness_*.json), replayed on the implementation on every run"""
     out = []
@@ -163,8 +219,8 @@ def oracle_on(case, res):
 
 def run(ctx):
     quick = ctx.tier == "quick"
-    n_cases = 115 if quick else 2600
-    n_meta = 35 if quick else 500
+    n_cases = 115 if quick else 900
+    n_meta = 35 if quick else 400
     ctx.rule = ("triangulated surfaces with float coordinates: bordered grids (optionally with a hole, planar or with relief, "
                 "jittered), fans around an interior vertex, equilateral patches with two-border-edge corner faces, open box "
                 "(border + sharp edges), closed tetra/octa/cube/icosa/bipyramid/torus; orders 1-6, elements faces/vertices, "
@@ -196,6 +252,10 @@ def run(ctx):
         cases.append(dict(c))
     n_fixed_cases = len(cases)
     cases += [make_case(ctx.rng, ctx.tier) for _ in range(n_cases)]
+    if not quick:
+        sw = sweep_cases()
+        cases += sw
+        ctx.count("sweep cases (orders 1-6 x elements x features x smoothing on 10 fixed surfaces)", len(sw))
     ctx.log("built: model_ok=%s props_ok=%s; running %d cases on the implementation" % (b["model_ok"], b["props_ok"], len(cases)))
     results = run_cases_impl(cases)
     ctx.log("implementation runs done")
@@ -267,8 +327,8 @@ def run(ctx):
         except ValueError as ex:
             fterms = vterms = []
             ctx.obligation("correspondence batches", "correspondence", False, "observation not encodable: %s" % ex)
-        bad_f = ctx.run_cases("faces", HEADER, fterms, "check_faces", case_type="fcase", shard=8 if quick else 40, timeout=900)
-        bad_v = ctx.run_cases("vertices", HEADER, vterms, "check_vertices", case_type="vcase", shard=8 if quick else 40, timeout=900)
+        bad_f = ctx.run_cases("faces", HEADER, fterms, "check_faces", case_type="fcase", shard=8 if quick else 25, timeout=900)
+        bad_v = ctx.run_cases("vertices", HEADER, vterms, "check_vertices", case_type="vcase", shard=8 if quick else 25, timeout=900)
     else:
         ctx.obligation("correspondence batches", "correspondence", False, "model does not compile")
     ctx.log("correspondence batches done: faces bad=%s vertices bad=%s" % (bad_f, bad_v))
